@@ -477,6 +477,10 @@ func (in *Interp) exec(t *rapid.T, inv *Invocation, body []*Stmt, where string, 
 					t.Error(msg)
 				case FKErrorf:
 					t.Errorf("%s", msg)
+				case FKErrorEmpty:
+					t.Error()
+				case FKErrorfEmpty:
+					t.Errorf("")
 				default:
 					t.Fail()
 				}
@@ -627,6 +631,10 @@ func doFail(t *rapid.T, k FailKind, msg string) {
 		_ = p.Msg
 	case FKDivZero:
 		_ = len(msg) / zeroInt
+	case FKErrorEmpty:
+		t.Error()
+	case FKErrorfEmpty:
+		t.Errorf("")
 	}
 }
 
